@@ -149,10 +149,9 @@ fn lex(src: &str) -> Option<Vec<Tk>> {
                 if i + 2 < cs.len() && cs[i + 1] == '"' && cs[i + 2] == '"' {
                     let mut j = i + 3;
                     loop {
-                        if j + 2 >= cs.len() + 0 && !(j + 2 < cs.len() + 1 && j + 2 <= cs.len() - 0 && j + 2 < cs.len()) && !(j + 3 <= cs.len()) { return None; }
-                        if j + 3 <= cs.len() && cs[j] == '"' && cs[j + 1] == '"' && cs[j + 2] == '"' { break; }
+                        if j + 3 > cs.len() { return None; }
+                        if cs[j] == '"' && cs[j + 1] == '"' && cs[j + 2] == '"' { break; }
                         if j + 4 <= cs.len() && cs[j] == '\\' && cs[j + 1] == '"' && cs[j + 2] == '"' && cs[j + 3] == '"' { j += 4; continue; }
-                        if j >= cs.len() { return None; }
                         j += 1;
                     }
                     out.push(Tk::Block(cs[i..j + 3].iter().collect()));
@@ -448,7 +447,7 @@ const TYPE_NAMES: &[&str] = &["Int", "String", "A", "Bar", "T_1", "on", "query",
 const LOCS: &[&str] = &["QUERY", "MUTATION", "SUBSCRIPTION", "FIELD", "FRAGMENT_DEFINITION", "FRAGMENT_SPREAD", "INLINE_FRAGMENT", "VARIABLE_DEFINITION",
     "SCHEMA", "SCALAR", "OBJECT", "FIELD_DEFINITION", "ARGUMENT_DEFINITION", "INTERFACE", "UNION", "ENUM", "ENUM_VALUE", "INPUT_OBJECT", "INPUT_FIELD_DEFINITION"];
 const STRS: &[&str] = &["\"\"", "\"s\"", "\"a b\"", "\"q\\\"q\"", "\"\\u00e9\\n\\t\"", "\"é日本😀\"", "\"\\\\ \\/ \\b\\f\\r\"", "\"\\u{1F600}\"", "\"\\u{e9}x\"", "\"#not a comment\"", "\"a,b\""];
-const BLOCKS: &[&str] = &["\"\"\"\"\"\"", "\"\"\"b\"\"\"", "\"\"\"two\nlines\"\"\"", "\"\"\"\n  indented\n    more\n  \"\"\"", "\"\"\"esc \\\"\"\" q\"\"\"", "\"\"\" \"one\" ""two \"\"\"",
+const BLOCKS: &[&str] = &["\"\"\"\"\"\"", "\"\"\"b\"\"\"", "\"\"\"two\nlines\"\"\"", "\"\"\"\n  indented\n    more\n  \"\"\"", "\"\"\"esc \\\"\"\" q\"\"\"", "\"\"\" \"one\" \"\"two \"\"\"",
     "\"\"\"\r\n\tcrlf\r\n\"\"\"", "\"\"\"é 😀 # , \"\"\"", "\"\"\"\n\n  x\n\n\"\"\""];
 const NUMS: &[&str] = &["0", "-0", "7", "-12", "1234567890123456789012", "1.5", "-0.25", "2e3", "1.0E-2", "0.0", "9E+9", "-1e0", "6.02e23"];
 
@@ -823,9 +822,9 @@ struct Ctx { cases: Cases, distinct: HashSet<String>, stats: BTreeMap<String, u6
 impl Ctx {
     fn bump(&mut self, k: &str) { *self.stats.entry(k.to_string()).or_insert(0) += 1; }
     /// runs one text; `canon`: erased AST of the canonical rendering this text must agree with
-    fn add(&mut self, kind: Kind, src: &str, stream: &str, file: usize, canon: Option<&Option<String>>, extra: serde_json::Value) -> Option<String> {
+    fn add(&mut self, kind: Kind, src: &str, stream: &str, file: usize, canon: Option<&Option<String>>, extra: serde_json::Value) -> (bool, Option<String>) {
         let nchars = src.chars().count();
-        if nchars > self.max_len { self.bump("skipped_too_long"); return None; }
+        if nchars > self.max_len { self.bump("skipped_too_long"); return (false, None); }
         let tree = pest_tree(kind, src);
         let (ast_term, outcome, erased) = impl_ast(kind, src, file);
         let canon_same = match canon { None => true, Some(c) => *c == erased };
@@ -852,7 +851,7 @@ impl Ctx {
         if outcome == "ok" && nchars >= 8 { self.distinct.insert(src.to_string()); }
         if self.samples.len() < 6 && self.cases.len() % 97 == 5 { self.samples.push(d.clone()); }
         self.cases.push(term, d);
-        Some(outcome).filter(|_| true).and(erased)
+        (true, erased)
     }
 }
 
@@ -876,7 +875,8 @@ fn main() {
         cx.add(kind, &d, "repo-tests", 0, None, json!({}));
         if let Some(toks) = lex(&d) {
             let canon = render_plain(&toks);
-            let ce = cx.add(kind, &canon, "repo-tests-canonical", 0, None, json!({}));
+            let (added, ce) = cx.add(kind, &canon, "repo-tests-canonical", 0, None, json!({}));
+            if !added { continue; }
             let tv = Trivia { heavy: 5, lone_cr: false, bom: true, comments: true, crlf: true };
             let t = render_trivia(&mut rng, &toks, &tv);
             cx.add(kind, &t, "repo-tests-trivia", 1, Some(&ce), json!({"canonical": canon}));
@@ -927,7 +927,7 @@ fn main() {
             if kind == Kind::Op { pg.op_doc(); } else { pg.ts_doc(); }
             let toks = pg.t;
             let m = mutate_tokens(&mut rng, &toks);
-            if rng.chance(1, 2) { render_plain(&m) } else { render_trivia(&mut rng, &m, &Trivia { heavy: 3, lone_cr: rng.chance(1, 6), bom: true, comments: true, crlf: true }) }
+            if rng.chance(1, 2) { render_plain(&m) } else { let lc = rng.chance(1, 6); render_trivia(&mut rng, &m, &Trivia { heavy: 3, lone_cr: lc, bom: true, comments: true, crlf: true }) }
         };
         // an operation text through the type-system entry point and vice versa, now and then
         let kind = if rng.chance(1, 10) { if kind == Kind::Op { Kind::Ts } else { Kind::Op } } else { kind };
@@ -950,8 +950,8 @@ fn main() {
 fn variants(cx: &mut Ctx, rng: &mut Rng, kind: Kind, text: &str, stream: &str) {
     let Some(toks) = lex(text) else { cx.add(kind, text, stream, 0, None, json!({"note": "not lexable by the spec lexer"})); return; };
     let canon = render_plain(&toks);
-    let ce = cx.add(kind, &canon, stream, 0, None, json!({"variant": "canonical"}));
-    if cx.cases.descr.last().map_or(true, |d| d["impl_outcome"] != "ok") { return; }
+    let (added, ce) = cx.add(kind, &canon, stream, 0, None, json!({"variant": "canonical"}));
+    if !added || ce.is_none() { return; }
     let base = json!({"canonical": canon});
     // trivia only
     let tv = Trivia { heavy: rng.range(2, 8), lone_cr: false, bom: rng.chance(1, 2), comments: true, crlf: rng.chance(1, 2) };
